@@ -20,3 +20,27 @@ package rtptime
 //@   trusted
 //@   why rtptime.go: Now(1000000)
 //@   modifies nothing
+//@
+//@ -- Unit conversions: functions of their arguments (128-bit arithmetic through math/bits, outside the modelled subset), no effect
+//@ -- on program state.
+//@ func FromDuration
+//@   trusted
+//@   pure
+//@   reads none
+//@   why rtptime.go: d converted to ticks of a clock of hz ticks per second
+//@
+//@ func ToDuration
+//@   trusted
+//@   pure
+//@   reads none
+//@   why rtptime.go: tm ticks of a clock of hz ticks per second as a time.Duration
+//@
+//@ func NTPToTime
+//@   trusted
+//@   why rtptime.go: conversion of a 64-bit NTP timestamp to a time.Time
+//@   modifies nothing
+//@
+//@ func TimeToNTP
+//@   trusted
+//@   why rtptime.go: conversion of a time.Time to a 64-bit NTP timestamp
+//@   modifies nothing
